@@ -45,7 +45,7 @@ class Queue:
                 if not self._q:
                     raise _rqueue.Empty()
                 return self._q.pop(0)
-        if not self._q and block:
+        if not self._q and block and (timeout is None or timeout > 0):
             ENV.run_hook("queue", self, timeout)
         if not self._q:
             if block:
@@ -131,7 +131,8 @@ class Condition:
         if i is not None:
             return i.wait(timeout)
         before = self.notified
-        ENV.run_hook("condition", self, timeout)
+        if timeout is None or timeout > 0:          # a non-positive time-out returns at once: nobody else gets to run
+            ENV.run_hook("condition", self, timeout)
         if self.notified != before:
             return True
         ENV.advance(timeout)
